@@ -399,7 +399,66 @@ def pipeline_bench(name, extended=False, real_adapters=False, nphases=8, span=4,
     return b
 
 
+def lpddr5_phy_bench(name, wck_ck_ratio=2):
+    """the real LPDDR5 (simulation) PHY: DFI command -> two-cycle CS/CA sequence through the command buffer.  The adapter's two
+    half-commands are taken as they are (their JEDEC decoding is part 1); decided here: a command's first half leaves in its own
+    cycle, its second half in the next one, and a command arriving in the cycle right after an emitted one is the only thing
+    suppressed (and suppressed as a whole)"""
+    from litedram.phy.lpddr5.simphy import LPDDR5SimPHY
+    from vlib import bmc
+    phy = LPDDR5SimPHY(sys_clk_freq=100e6, wck_ck_ratio=wck_ck_ratio)
+
+    class Top(Module):
+        pass
+    top = Top()
+    top.submodules.phy = phy
+    p0 = phy.dfi.phases[0]
+    inputs = {}
+    for n in ("cs_n", "ras_n", "cas_n", "we_n", "address", "bank", "reset_n", "cke", "odt", "act_n"):
+        sg = getattr(p0, n, None)
+        if sg is not None:
+            inputs["dfi_" + n] = sg
+    A = phy.adapter
+    prev = Signal()
+    s_cs = Signal(len(A.cmd2.cs))
+    s_p = Signal(7)
+    s_n = Signal(7)
+    acc = Signal()
+    top.comb += acc.eq(A.valid & ~prev)
+    top.sync += [prev.eq(acc), If(acc, s_cs.eq(A.cmd2.cs), s_p.eq(A.cmd2.ca[0]), s_n.eq(A.cmd2.ca[1]))]
+    e_cs = Signal(len(phy.out.cs))
+    e_p = Signal(7)
+    e_n = Signal(7)
+    top.comb += [
+        If(prev, e_cs.eq(s_cs), e_p.eq(s_p), e_n.eq(s_n)
+        ).Elif(A.valid, e_cs.eq(A.cmd1.cs), e_p.eq(A.cmd1.ca[0]), e_n.eq(A.cmd1.ca[1])
+        ).Else(e_cs.eq(0), e_p.eq(0), e_n.eq(0))]
+    o_p = Cat(*[phy.out.ca[b][0] for b in range(7)])
+    o_n = Cat(*[phy.out.ca[b][1] for b in range(7)])
+    bads = {}
+
+    def bad(n, e):
+        sg = Signal(name_override="bad_" + n)
+        top.comb += sg.eq(e)
+        bads[n] = sg
+    bad("cs_differs_from_two_cycle_command_sequence", phy.out.cs != e_cs)
+    bad("ca_differs_from_two_cycle_command_sequence", (o_p != e_p) | (o_n != e_n))
+    covers = {}
+    c1 = Signal()
+    top.comb += c1.eq(prev & A.valid & (s_cs != 0))
+    covers["command_arrives_right_after_an_emitted_command"] = c1
+    pp = Signal()
+    top.sync += pp.eq(prev & A.valid)
+    c2 = Signal()
+    top.comb += c2.eq(pp & A.valid & (A.cmd1.cs != 0))
+    covers["third_command_right_after_a_suppressed_one_is_emitted"] = c2
+    b = bmc.Bench(name, top, inputs, bads=bads, covers=covers, clock_domains=("sys",), info=dict(wck_ck_ratio=wck_ck_ratio))
+    b.watch = {"cs": phy.out.cs, "valid": A.valid, "prev": prev}
+    return b
+
+
 BENCHES = {
+    "lpddr5_phy_command_buffer": partial(lpddr5_phy_bench, "lpddr5_phy_command_buffer"),
     "pipeline_basic": partial(pipeline_bench, "pipeline_basic", False, False),
     "pipeline_extended": partial(pipeline_bench, "pipeline_extended", True, False),
     "pipeline_basic_real_adapters": partial(pipeline_bench, "pipeline_basic_real_adapters", False, True),
@@ -415,7 +474,8 @@ def run(ctx):
                "produce, proved in part 1) in the pipeline_basic/extended benches; "
                "pipeline latency 1 controller cycle; LPDDR4 parameters nphases=8, span=4, SDR CS/CA")
     ctx.assume("LPDDR5: adapter only (16-bank organisation, as the source supports); WCK-sync bits of CAS follow wck_sync_done; the "
-               "LPDDR5 command buffer/PipeValid path and the serializer/pad layer of the concrete PHYs are not covered")
+               "LPDDR5 command buffer of the real (simulation) PHY: bench lpddr5_phy_command_buffer; the serializer/pad layer of the concrete "
+               "PHYs is not covered")
     ctxm = multiprocessing.get_context("fork")
     with cf.ProcessPoolExecutor(max_workers=6, mp_context=ctxm) as ex:
         results = list(ex.map(adapter_job, [False, True, "dyn"], chunksize=1)) + list(ex.map(lpddr5_job, [False, True, "dyn"], chunksize=1))
@@ -431,6 +491,8 @@ def run(ctx):
                 if r["result"] == "sat" and not r["q"].startswith("witness"):
                     path = ctx.write_replay(label, r["q"].split("(")[0], dict(masked=str(masked), model=r.get("model")))
                     ctx.violation(label, r["q"].split("(")[0], path)
+    if not ctx.only or ctx.only.search("lpddr5_phy_command_buffer"):
+        ctx.add("lpddr5_phy_command_buffer", 6 if ctx.tier == "quick" else 10, timeout=600, diff_cycles=6)
     for n, (kq, kt, tiers) in PIPE_K.items():
         if ctx.only and not ctx.only.search(n):
             continue
